@@ -43,7 +43,7 @@ def run(chk):
     seeds = [0, 1] if chk.tier == "quick" else [0, 1, 2, 3, 4]
     gterms, kterms = [], []
 
-    def explore(name, n, D, make_ref, make_dask, compare, feat_ok=False):
+    def explore(name, n, D, make_ref, make_dask, compare, feat_ok=False, data=None):
         """make_ref() -> reference result on the in-memory array; make_dask(chunks) -> callable run under the scheduler."""
         ref = make_ref()
         for rows in chunkings(r, n, chk.tier):
@@ -61,8 +61,8 @@ def run(chk):
                         if why:
                             chk.fail("%s on a Dask array differs from the in-memory result: %s (row chunks %s, feature chunks %s, order seed %d, isolated=%s)"
                                      % (name, why, rows, fc, sd, iso),
-                                     {"trainer": name, "row_chunks": list(rows), "feature_chunks": list(fc), "order_seed": sd, "isolated": iso,
-                                      "executed_order": s.orders[-1] if s.orders else []})
+                                     dict(data or {}, trainer=name, row_chunks=list(rows), feature_chunks=list(fc), order_seed=sd, isolated=iso,
+                                          executed_order=s.orders[-1] if s.orders else [], reference=repr(ref)[:1500], got=repr(out)[:1500]))
                             return ref
         return ref
 
@@ -95,7 +95,7 @@ def run(chk):
                 return "cluster variances/weights"
             return None
         if kt.margin_ok(init, X):
-            explore("k-means", n, D, km_ref, km_dask, km_cmp, feat_ok=True)
+            explore("k-means", n, D, km_ref, km_dask, km_cmp, feat_ok=True, data={"X": hexlist(X), "init": hexlist(init), "cap": cap, "cthr": thr})
         # ------------------------------------------------------------------ GMM ML / MAP
         w, mu, var, s, Xg = gt.gen_training(r, N=n)
         C, Dg = mu.shape
@@ -125,14 +125,27 @@ def run(chk):
                     if not close(x, y, rtol=1e-8, atol=1e-10):
                         return nm
                 return None
-            explore("GMM %s" % trainer.upper(), n, Dg, g_ref, g_dask, g_cmp, feat_ok=True)
+            # conditioning policy (as for the correspondence, DESIGN 9.5): when some variance collapses to the level of the cancellation noise of
+            # sum x^2/n - mean^2 (a component sitting on one or two points) the reported values are dominated by binary64 rounding, which differs
+            # between summation orders; such training problems are not compared (the k-means, FA and whitening explorations still run)
+            conditioned = True
+            for kk in range(1, capg + 1):
+                mk_, _ = gt.build_machine(dict(cfg, cap=kk, cthr=None))
+                gt.run_fit(mk_, Xg)
+                conditioned = conditioned and gt.well_conditioned(mk_, Xg)
+            if not conditioned:
+                chk.count(1, key=("GMM %s" % trainer.upper(), "excluded: collapsed variance"))
+                continue
+            explore("GMM %s" % trainer.upper(), n, Dg, g_ref, g_dask, g_cmp, feat_ok=True,
+                    data={"X": hexlist(Xg), "w": hexlist(w), "mu": hexlist(mu), "var": hexlist(var), "switches": list(sw), "cap": capg, "cthr": cfg["cthr"]})
         # ------------------------------------------------------------------ ISV / JFA from labelled arrays
         if rd % 2 == 0:
             ubm, su = fa.gen_ubm(r, C=2, D=2)
             S, Fr = r.choice([4, 6]), 3
             g = gen.nprng(r)
             Xa = g.normal(size=(S, Fr, 2)) * 1.5 + np.asarray(ubm.means)[g.integers(0, 2, size=S)][:, None, :]
-            ya = np.array([k % 2 for k in range(S)])
+            n0 = r.choice([k for k in range(1, S) if 2 * k != S]) if rd % 4 == 0 else S // 2      # classes of unequal size in every other FA round
+            ya = np.array([0] * n0 + [1] * (S - n0))
             g.shuffle(ya)
             for kind in ("isv", "jfa"):
                 def f_ref(kind=kind):
@@ -183,7 +196,7 @@ def run(chk):
         chk.correspondence("KMeansMachine.fit on Dask chunks ~ KF.fit on the same chunk list", len(kterms), bad, info)
     chk.partial = ["OS-thread interleavings inside NumPy/BLAS kernels are not modelled: a task is one atomic step and tasks only share read-only inputs"]
     return chk.finish(
-        rule="trainers k-means(+variances/weights), GMM ML, GMM MAP, ISV/JFA fit_using_array, Whitening, WCCN; row chunkings {whole, single rows, uneven, random}"
+        rule="trainers k-means(+variances/weights), GMM ML, GMM MAP, ISV/JFA fit_using_array (classes of equal and unequal size), Whitening, WCCN; row chunkings {whole, single rows, uneven, random}"
              " (every composition for n<=6 in the thorough tier), feature-axis chunkings for k-means/GMM, task order shuffled by seed, shared vs cloudpickle-isolated "
              "execution; each compared with the in-memory fit (parameters, criterion/reported values, iteration count); distinct = (trainer,#row chunks,feature-chunked,isolated)",
         trusted=["custom Dask scheduler harness/dasksched.py (dask.local.get_async with one synchronous worker, ready-list shuffling, cloudpickle dumps/loads)"])
